@@ -116,26 +116,31 @@ static const std::vector<uint64_t> &sfloat_table() {
     return v;
 }
 
+// Random payload bits are drawn without shrinking: a 64-bit value shrinks in ~64 steps, every accepted step restarts the
+// shrink of the whole call list, and failures that depend on an exact byte total then cost 10^5..10^6 evaluations.
+// What shrinks: the number of calls, the call kinds, table indices, bit lengths, string lengths, counts.
+static uint64_t rnd_u64() { return *rc::gen::noShrink(rc::gen::resize(100, rc::gen::arbitrary<uint64_t>())); }
+
 static uint64_t gen_u64() {
     switch (weighted({50, 25, 25})) {
     case 0: return one_of_v(int_boundaries());
     case 1: {
         unsigned k = (unsigned)pick(0, 63);
         uint64_t top = 1ull << k;
-        return top | (any_u64() & (top - 1));
+        return top | (rnd_u64() & (top - 1));
     }
-    default: return any_u64();
+    default: return rnd_u64();
     }
 }
 
 static uint64_t gen_float_bits() {
     switch (weighted({55, 13, 10, 12, 10})) {
     case 0: return one_of_v(float_table());
-    case 1: return any_u64();
-    case 2: return dbits((double)bfloat((uint32_t)any_u64())); // exactly a float (may be NaN / inf)
+    case 1: return rnd_u64();
+    case 2: return dbits((double)bfloat((uint32_t)rnd_u64())); // exactly a float (may be NaN / inf)
     case 3: {                                                    // around integers of every magnitude
         unsigned k = (unsigned)pick(0, 64);
-        uint64_t m = k == 64 ? any_u64() : ((1ull << k) | (any_u64() & ((1ull << k) - 1)));
+        uint64_t m = k == 64 ? rnd_u64() : ((1ull << k) | (rnd_u64() & ((1ull << k) - 1)));
         double d = (double)m;
         if (chance(25)) d += 0.5;
         if (chance(50)) d = -d;
@@ -176,7 +181,7 @@ static Case gen_case() {
     Case c;
     int mode = (int)weighted({42, 58});
     unsigned profile = (unsigned)weighted({40, 22, 14, 24});
-    c.cfg = {(uint64_t)mode, pick(0, 3), pick(0, 255), any_u64() & 0xFFFFFFFFull, pick(0, 4), profile};
+    c.cfg = {(uint64_t)mode, pick(0, 3), pick(0, 3), rnd_u64() & 0xFFFFFFFFull, pick(0, 4), profile};
     // profile 0 balanced, 1 container-heavy (deep nesting), 2 string-heavy, 3 number-heavy
     static const unsigned W[4][NKINDS] = {
         //  U   N   F  SF  BY  TX  AR  MP  TG  BO NUL UND IBY ITX IAR IMP BRK
@@ -196,9 +201,9 @@ static Case gen_case() {
         case NEGINT:
         case TAG: return mkop(k, {gen_u64()});
         case FLOAT: return mkop(k, {gen_float_bits()});
-        case SFLOAT: return mkop(k, {chance(60) ? one_of_v(sfloat_table()) : (any_u64() & 0xFFFFFFFFull)});
+        case SFLOAT: return mkop(k, {chance(60) ? one_of_v(sfloat_table()) : (rnd_u64() & 0xFFFFFFFFull)});
         case BYTES:
-        case TEXT: return mkop(k, {gen_strlen(), any_u64() & 0xFFFF});
+        case TEXT: return mkop(k, {gen_strlen(), rnd_u64() & 0xFFFF});
         case ARRAY: return mkop(k, {gen_count(mode, false)});
         case MAP: return mkop(k, {gen_count(mode, true)});
         case BOOL: return mkop(k, {pick(0, 1)});
